@@ -43,6 +43,7 @@ class B:
         self.k = 0
         self.mut_in_loop = False
         self.reassigned = False
+        self.big = set()
 
     def nm(self, p):
         self.k += 1
@@ -96,8 +97,22 @@ class B:
             dst.append(f"mon.write(len({name}))")
             return
         i = self.draw(st.integers(-n, n - 1))
-        form = self.draw(st.sampled_from(["lit", "lit", "len_minus", "expr"]))
-        if form == "len_minus":
+        form = self.draw(st.sampled_from(["lit", "lit", "len_minus", "expr"] + (["arith", "arith"] if t in ("int", "float") and name not in self.big else [])))
+        if form == "arith":
+            # arithmetic on elements through the emitted helpers (pow, floor division, modulo): every Python value stays far inside 32 bits
+            # (|element| <= 300), so the firmware has no excuse for signed overflow or a division trap
+            j = self.draw(st.integers(-n, n - 1))
+            e = self.draw(st.sampled_from(["{a} ** 2", "{a} ** 3", "{a} * {b}", "abs({a}) ** 2 + {b}", "{a} // 7", "{a} % 7", "({a} * 1000) // 3", "{a} ** 2 - {b} ** 2", "({a} + {b}) ** 2"]))
+            e = e.format(a=f"{name}[{i}]", b=f"{name}[{j}]")
+            if dst is self.pro and t == "int" and self.draw(st.booleans()):
+                q = self.nm("q")
+                dst.append(f"{q} = [{name}[j] ** {self.draw(st.sampled_from([2, 2, 3]))} for j in range({n})]")
+                dst.append(f"mon.write({q}[{self.draw(st.integers(-n, n - 1))}])")
+                self.lists[q] = ["int", n]
+                self.big.add(q)   # its elements are powers already: no further arithmetic on them
+            else:
+                dst.append(f"mon.write({e})")
+        elif form == "len_minus":
             # counted from the end through len(): any k in 1..2n is a valid Python index (it may still be negative)
             dst.append(f"mon.write({name}[len({name}) - {self.draw(st.integers(1, 2 * n))}])")
         elif form == "expr":
@@ -150,6 +165,8 @@ class B:
                 self.lists[small_][1] += 1
                 d += [f"{name} = {src}", f"mon.write(len({name}))", f"mon.write({name}[-1])"]
                 self.lists[name][1] = self.lists[src][1]
+                if src in self.big:
+                    self.big.add(name)
                 self.reassigned = True
         elif op == "copy_assign":
             # whole-list assignment between two declared lists of the same element type (deep copy on the device)
@@ -158,6 +175,8 @@ class B:
                 src = self.draw(st.sampled_from(others))
                 d += [f"{name} = {src}", f"mon.write(len({name}))"]
                 self.lists[name][1] = self.lists[src][1]
+                if src in self.big:
+                    self.big.add(name)
                 self.reassigned = True
         elif op == "self_assign":
             d.append(f"{name} = {name}")
@@ -172,6 +191,8 @@ class B:
             other = self.nm("l")
             d.append(f"{other} = {name}")
             self.lists[other] = [t, n]
+            if name in self.big:
+                self.big.add(other)
             d.append(f"{other}.append({self.operand(t, d)})"); self.lists[other][1] += 1
         elif op == "helper_read":
             h = self.nm("h")
